@@ -30,8 +30,11 @@ RsP == D0 \cup { Ar(3, P(n)) : n \in {"i8", "u16", "i32"} }
           \cup { St(<<P("i32"), P("i32"), P("i32")>>), St(<<P("i8"), P("i8"), P("i8")>>), St(<<P("i64"), P("i8")>>) }
 RS2 == { Rs(o, e) : o \in RsP, e \in RsP } \ { Rs(o, e) : o \in D0, e \in D0 }
 
+(* element types of arrays: struct sizes that are odd, even but no power of two, and powers of two *)
+Elems == Inner \cup { St(<<P("i32"), P("i32"), P("i32")>>), St(<<P("u16"), P("u16"), P("u16")>>), St(<<P("i64"), P("i64"), P("i64")>>),
+                      St(<<P("i8"), P("i8"), P("i8")>>), St(<<P("i32"), P("u16")>>), St(<<P("str"), P("i32")>>), Ar(3, P("i32")), Ar(3, P("u16")) }
 D2 == { St(fs) : fs \in SeqsUpTo(Red, 3) \ SeqsUpTo(D0, 3) }
-      \cup { Ar(c, e) : c \in {2, 3}, e \in Inner } \cup { Op(e) : e \in Inner }
+      \cup { Ar(c, e) : c \in {2, 3}, e \in Elems } \cup { Op(e) : e \in Inner }
       \cup { St(<<P("i8"), Op(e), P("u16")>>) : e \in Inner } \cup { St(<<P("bool"), Ar(2, e), P("i8")>>) : e \in Inner }
       \cup RS2
 
